@@ -43,12 +43,15 @@ def gen_env(r):
     return env
 
 
-def build(tp, env, argv, text):
+def build(tp, env, argv, text, bystander=None):
     tp.write("f.ucg", text)
     art = tp.path("f.json")
     if os.path.exists(art):
         os.remove(art)
     e = dict(env)
+    if bystander:
+        # an unrelated variable whose value is not valid UTF-8 (the operating system allows it)
+        e[bystander[0]] = bystander[1]
     ev = core.run_cli(argv + ["build", "f.ucg"], tp.root, env=e, timeout=30.0, home=tp.path("home"))
     data = None
     if os.path.exists(art):
@@ -78,11 +81,19 @@ def task(args):
             fields = ", ".join("%s = %s" % (gen.quote("k%d" % i), sel(n)) for i, n in enumerate(names))
             text = "out json {%s};\n" % fields if names else "out json {none = 1};\n"
             res.case((json.dumps(env, sort_keys=True), "read-all"), nontrivial=len(env) >= 2)
-            ev, data = build(tp, env, [], text)
+            bystander = None
+            if r.random() < 0.2:
+                bystander = (b"BYSTANDER_%d" % r.randint(0, 9), r.choice([b"\xff\xfe", b"caf\xe9", b"\x80", b"ok\xc3", b"\xed\xa0\x80", b"\xf5abc"]))
+                res.count("runs-with-a-non-unicode-bystander-variable")
+            ev, data = build(tp, env, [], text, bystander)
             w = dict(witness, text=text)
+            if bystander:
+                w["bystander_hex"] = [bystander[0].decode("ascii"), bystander[1].hex()]
             if ev["exit"] != 0 or data is None:
                 if ev.get("hang") or ev["signal"] or ev["exit"] not in (0, 1):
-                    res.count("crash-left-to-C04")
+                    # a run that dies while only reading variables that are set does not deliver their values
+                    res.violation(["reading-set-variables-crashes", "with-non-unicode-bystander" if bystander else "unicode-only"], w,
+                                  {"exit": ev["exit"], "signal": ev["signal"], "stderr": ev["stderr"][-300:]})
                 else:
                     res.violation(["reading-set-variables-fails"], w, {"stderr": ev["stderr"][-300:]})
             else:
@@ -196,9 +207,12 @@ def check_witness(w):
     env = dict(w["env"])
     with core.TempProject("c18r") as tp:
         os.makedirs(tp.path("home"), exist_ok=True)
-        ev, data = build(tp, env, w.get("argv", []), w["text"])
+        by = w.get("bystander_hex")
+        ev, data = build(tp, env, w.get("argv", []), w["text"], (by[0].encode("ascii"), bytes.fromhex(by[1])) if by else None)
         outtxt = ev["stdout"] + ev["stderr"]
-        if w.get("missing"):
+        if ev.get("hang") or ev["signal"] or ev["exit"] not in (0, 1):
+            res.violation(["reading-set-variables-crashes"], w, {"exit": ev["exit"]})
+        elif w.get("missing"):
             leaked = [k for k, v in env.items() if len(v) >= 12 and v in outtxt]
             if ev["exit"] == 0:
                 res.violation(["unset-variable-builds-in-strict-mode"], w, {})
